@@ -21,7 +21,8 @@ type Clause struct {
 	Loop int
 	Exc  string // panics: exception type name ("" = any)
 	Line int
-	Tag  string // optional label: ensures [name] expr
+	Tag  string // optional label: ensures [name] expr; [name@C13] restricts the clause to checks of that property
+	OnlyProp string
 	Exprs []*Expr // modifies list
 }
 
@@ -281,7 +282,11 @@ func parseContractFile(path, pkgPath string) (*ContractFile, error) {
 				tag = rest[1:j]
 				rest = strings.TrimSpace(rest[j+1:])
 			}
-			last = &Clause{Kind: kw, Text: rest, Line: ln + 1, Tag: tag}
+			only := ""
+			if k := strings.Index(tag, "@"); k >= 0 {
+				tag, only = tag[:k], tag[k+1:]
+			}
+			last = &Clause{Kind: kw, Text: rest, Line: ln + 1, Tag: tag, OnlyProp: only}
 			cur.Clauses = append(cur.Clauses, last)
 		}
 	}
